@@ -27,11 +27,16 @@ def gen_proposal(rng, num, proto=None, spi_size=None):
     return {'num': num, 'proto': proto, 'spi': rb(rng, spi_size), 'transforms': trs}
 
 
-def gen_selector(rng, v6=None):
+def gen_selector(rng, v6=None, unusual=False):
     v6 = rng.random() < 0.4 if v6 is None else v6
     n = 16 if v6 else 4
     a, b = sorted([rb(rng, n), rb(rng, n)])
     p1, p2 = sorted([rng.choice([0, 1, 23, 500, 65535, rng.randrange(65536)]) for _ in range(2)])
+    if unusual and rng.random() < 0.2:
+        # RFC 7296 3.13.1: start port 65535 with end port 0 means OPAQUE; a codec has to carry any pair (and any address pair) as it stands
+        p1, p2 = rng.choice([(65535, 0), (p2, p1), (p2, p1)])
+        if rng.random() < 0.3:
+            a, b = b, a
     return {'tstype': 8 if v6 else 7, 'ipproto': rng.choice([0, 1, 6, 17, 58, 135, rng.randrange(256)]), 'sport': p1, 'eport': p2,
             'saddr': a, 'eaddr': b}
 
@@ -70,7 +75,7 @@ def gen_payload(rng, ptype):
     elif ptype == VENDOR:
         p.update(data=(b'vendor-' + str(rng.randrange(10 ** 6)).encode()) if rng.random() < 0.6 else rb(rng, rng.randrange(1, 40)))
     elif ptype in (TSI, TSR):
-        p['selectors'] = [gen_selector(rng) for _ in range(rng.randrange(1, 5))]
+        p['selectors'] = [gen_selector(rng, unusual=True) for _ in range(rng.randrange(1, 5))]
     else:
         p['body'] = rb(rng, rng.randrange(0, 30))
     return p
